@@ -59,6 +59,9 @@ TS_ALPHA = [
     datetime(9999, 12, 31, 23, 59, 59, 999999, tzinfo=UTC),
     EPOCH + timedelta(seconds=2**31 + 1),
     datetime(1969, 12, 31, 23, 59, 58, 500000, tzinfo=UTC),
+    # aware datetimes that are not UTC (the instant is what is stored)
+    datetime(2001, 2, 3, 4, 5, 6, 789012, tzinfo=timezone(timedelta(hours=5, minutes=30))),
+    datetime(1969, 12, 31, 20, 0, 0, 250000, tzinfo=timezone(-timedelta(hours=3, minutes=30))),
 ]
 DUR_ALPHA = [
     timedelta(0),
